@@ -46,7 +46,7 @@ def replay(pid, path):
         tmp = os.path.join(WORK, "replay-%d.ndjson" % os.getpid())
         with open(tmp, "w") as f:
             f.write(json.dumps(rec) + "\n")
-        bad = validate_loader_trace(tmp, os.path.join(WORK, "replay-%d-trace.ndjson" % os.getpid()), stride=1)
+        bad, _st = validate_loader_trace(tmp, os.path.join(WORK, "replay-%d-trace.ndjson" % os.getpid()), stride=1)
         os.remove(tmp)
         if bad:
             print(json.dumps(bad[0][1], indent=1, ensure_ascii=False))
